@@ -43,7 +43,7 @@ def harnesses(tier):
     H.append(BHarness('R5_draw', 'c13_rg.cpp', 'h_r_draw', defs=['JLO=1', 'JHI=1', 'NTAIL=1', 'NREFILL=397'], post=post_exact, timeout=900, **ex,
         what='get_uniform_random_double from any valid state returns the next state word, 0 <= u < 1 (so -log(u) is never zero or negative; u == 0 is a legal RANLUX output)', bound='index 0..11 x carry enumerated, words symbolic; refill with luxury 12'))
     H.append(BHarness('R4_restart', 'c13_rg.cpp', 'h_r_restart', defs=['JLO=1', 'JHI=1', 'NTAIL=1', 'NREFILL=397'], what='write_restart_file -> tape -> restart constructor restores all 17 words; rewrite gives the same tape', bound='all 17 words symbolic'))
-    H.append(BHarness('R3_seed', 'c13_rg.cpp', 'h_r_seed', defs=['JLO=1', 'JHI=1', 'NTAIL=1', 'NREFILL=397'], timeout=400, maxsteps=3000000, solver_timeout_ms=5000, **ex,
+    H.append(BHarness('R3_seed', 'c13_rg.cpp', 'h_r_seed', defs=['JLO=1', 'JHI=1', 'NTAIL=1', 'NREFILL=397'], timeout=600, maxsteps=3000000, solver_timeout_ms=60000, **ex,
         what='set_seed for EVERY 64-bit seed argument: state equals the reference initialisation (shift register b[n+31]=b[n]^b[n+18], 48 complemented bits per word), words in [0,1), carry 0, indices (11,7,0), luxury 397',
         bound='seed symbolic (64 bit); 31 + 12x48 loop iterations executed with concrete control'))
     return H
